@@ -35,6 +35,14 @@ def model_layer(run, tier):
         raise MachineryError("design model SBC.tla violates %s at N=3 (model and code must be re-examined)\n%s" % (
             res.violated, "\n".join(res.trace[-3:])))
     run.add_model(res, "SBC_mc3: every environment answer, species map, Bond/Near relation for N=3 atoms")
+    # unbounded counterpart of PairwiseDisjoint: TLAPS proof of the localize loop for arbitrary N and K; SBC.tla's
+    # LocalizeStep is checked by TLC to be an instance of the proved step (PROPERTY LocalizeRefinesProvedStep)
+    from .. import tlaps
+
+    pr = tlaps.prove("Localize.tla")
+    run.notes["tlaps_localize_loop"] = pr
+    if not pr["all_proved"]:
+        run.model_drift("TLAPS did not prove all obligations of proofs/Localize.tla (%s of %s)" % (pr["proved"], pr["obligations"]))
     if tier == "thorough":
         res = tlc.run("SBC.tla", "SBC_sim4.cfg", simulate={"num": 300000, "depth": 60, "seed": 11}, timeout=1800)
         if res.violated:
